@@ -170,7 +170,7 @@ class LookupOperatorToken(XPathToken):
 
     def evaluate(self, context: ta.ContextType = None) -> ta.OneOrMore[ta.ItemType]:
         if not self:
-            return self.symbol  # a placeholder token
+            return self.value  # a placeholder token: the symbol or the supplied argument
         return xlist(self.select(context))
 
     def select(self, context: ta.ContextType = None) -> Iterator[ta.ItemType]:
@@ -282,11 +282,17 @@ def evaluate__arrow_operator(self: XPathToken, context: ta.ContextType = None) \
     if any(tk.symbol == '?' and not tk for tk in tokens):
         # A partial application: the fixed arguments are evaluated now
         func.check_arguments_number(len(tokens))
-        func = copy(func)
-        func._items = [
+        items: list[XPathToken] = [
             tk if tk.symbol == '?' and not tk else
             ValueToken(self.parser, value=tk.evaluate(context)) for tk in tokens
         ]
+        if func.label in ('partial function', 'inline partial function'):
+            # Fill the placeholders of the partial function, keeping its fixed arguments
+            arguments_ = iter(items)
+            items = [next(arguments_) if tk.symbol == '?' and not tk else tk for tk in func]
+
+        func = copy(func)
+        func._items = items
         func.to_partial_function()
         return func
 
